@@ -53,7 +53,8 @@ BADA3 = {
 }
 BADA3_CALLS = {
     'calculate_specific_fuel_consumption': 'SFC',
-    'calculate_max_climb_thrust': 'MAXCLIMB',
+    'calculate_max_climb_thrust': 'MAXCLIMB',          # temperature-corrected (3.7-4)
+    'calculate_max_climb_thrust_isa': 'MAXCLIMB_ISA',  # ISA only (3.7-1..3): a different quantity
 }
 
 # --- ISA / BADA atmosphere, emission-index blocks (C12) ---------------------
